@@ -5,6 +5,12 @@ here = os.path.dirname(os.path.dirname(os.path.abspath(__file__)))
 
 CHECKS = {
  # id: (category, technique, text, note, design_ref)
+ "C01": ("exploration", "property-based testing + bounded-exhaustive tampering: independently signed records, exhaustive bit flips/truncations, field-level tampers, decoded under 4 key types; oracle = independent signature verifier over the reported fields",
+         "Every accepted record is re-verified by an independent verifier against the key and fields the record itself reports; all single-bit flips and truncations of selected records and 16 field-level tampers (incl. high-S twin) are enumerated, tens of thousands more sampled. Shows the verification step is wired to the right key, bytes and fields; cannot show absence of forgeries.",
+         "ECDSA/Ed25519 unforgeability; libsecp256k1+k256 (direct) as verifier; ed25519-dalek is the only Ed25519 implementation available", "5/C01"),
+ "C02": ("exploration", "differential property-based testing against a reference decoder written from the statement, on structurally mutated records re-signed by an independent signer",
+         "Differential test of decode/from_str under all four key types against an independent reference decoder, on valid records and 39 kinds of structural mutation that are re-signed (over the literal sequence and over lenient reconstructions) so that only the structural rule can reject; size boundary 299..303 by construction. Sampled, with every mutation x reconstruction cell instantiated.",
+         "reference decoder is the oracle (own RLP/keccak; ECDSA by libsecp256k1 cross-checked with k256); open regions (65-byte keys, malformed inner list bytes, list-typed other-scheme entry) excluded and counted", "5/C02"),
  "C16": ("exploration", "property-based testing: exhaustive slice lengths + seeded random strings vs a reference hex parser, proptest shrinking",
          "Every slice length 0..=64 and patterned 32-byte values are enumerated; tens of thousands of mutated hex strings and JSON texts are compared with a reference parser written from the statement. Complete for the length domain, sampled for strings.",
          "serde_json as JSON implementation; strings sampled, not exhaustive", "5/C16"),
